@@ -206,7 +206,7 @@ pub fn run(opts: &Opts) -> Report {
     ];
     let a = ModelRoundTrip;
     crate::props::committed_replays(&a, opts, &mut rep);
-    run_sub(&a, opts, opts.tier.pick(1200, 30_000), &mut rep);
+    run_sub(&a, opts, opts.tier.pick(3000, 50_000), &mut rep);
     rep
 }
 
